@@ -245,22 +245,23 @@ def token_language(ctx, rep, clause):
     stxt = ' '.join(norm_stmt(s) for s in ast.walk(sp.node) if isinstance(s, (ast.If, ast.While, ast.Assign)))
     # the plain stretch ends at the first bracket of either kind: a membership test of one character of the formula
     # against exactly the two brackets (scanned with `not in`, or searched for with `in`)
+    _spf = program.func(f'{CU}:_split_chem_formula')
     both = any(isinstance(x, ast.Compare) and len(x.ops) == 1 and isinstance(x.ops[0], (ast.In, ast.NotIn)) and
                isinstance(x.comparators[0], (ast.Constant, ast.Tuple, ast.List, ast.Set)) and
                (set(x.comparators[0].value) if isinstance(x.comparators[0], ast.Constant) and
                 isinstance(x.comparators[0].value, str) else
                 {e.value for e in getattr(x.comparators[0], 'elts', []) if isinstance(e, ast.Constant)}) == {'[', ']'} and
                isinstance(x.left, ast.Subscript) and norm_stmt(x.left.value) == 'formula'
-               for x in ast.walk(sp.node))
+               for x in ast.walk(_spf.node))
     cursor_ = _cursor(None, program.func(f'{CU}:_split_chem_formula').node)
     opens = any(isinstance(x, ast.Compare) and len(x.ops) == 1 and isinstance(x.ops[0], ast.Eq) and
                 isinstance(x.left, ast.Subscript) and norm_stmt(x.left.value) == 'formula' and
                 isinstance(x.left.slice, ast.Name) and x.left.slice.id in (cursor_, 'i') and
                 isinstance(x.comparators[0], ast.Constant) and x.comparators[0].value == '['
-                for x in ast.walk(sp.node))
+                for x in ast.walk(_spf.node))
     closes = any(isinstance(x, ast.Call) and isinstance(x.func, ast.Attribute) and x.func.attr == 'index' and
                  norm_stmt(x.func.value) == 'formula' and len(x.args) == 2 and isinstance(x.args[0], ast.Constant) and
-                 x.args[0].value == ']' and isinstance(x.args[1], ast.Name) for x in ast.walk(sp.node))
+                 x.args[0].value == ']' and isinstance(x.args[1], ast.Name) for x in ast.walk(_spf.node))
     ok = opens and closes and both
     ob(rep, 'TOK-formula', sp.fq, 'components are delimited by [ and the next ]', ok, 'bracket-delimited',
        'the component splitter no longer cuts at the brackets', sp.loc(), clause)
